@@ -103,7 +103,14 @@ fn sizes_and_proofs(ctx: &Ctx, seed: u64, max_leaves: u64, proof_stride: u64, co
 			let rr = ro.root().map_err(|e| Fail::new("root-err", e))?;
 			ensure!(rr == h(&rk.root()), "readonly-root", "n={} readonly at {} leaves root differs", n, k);
 			let mut rw = RewindablePMMR::<FixElem, _>::at(&backend, size);
-			rw.rewind(rk.size()).map_err(|e| Fail::new("rewind-err", e))?;
+			// any position behind the last kept leaf and up to the prefix size names that prefix ("rounding to a
+			// leaf": the parents the last leaf completes come with it)
+			let last_leaf = *rk.leaf_positions().last().unwrap();
+			let to = rk.size() - (seed ^ n.wrapping_mul(7)) % (rk.size() - last_leaf);
+			if counting && to != rk.size() {
+				ev.class("prefix_views_rewound_to_a_parent_position");
+			}
+			rw.rewind(to).map_err(|e| Fail::new("rewind-err", e))?;
 			let rw = rw.as_readonly();
 			let rr2 = rw.root().map_err(|e| Fail::new("root-err", e))?;
 			ensure!(rr2 == h(&rk.root()), "rewindable-root", "n={} rewindable to {} leaves root differs", n, k);
@@ -509,6 +516,7 @@ fn history_case(ctx: &Ctx, hash_only: bool, seed: u64, ops: &[(u8, u16)], counti
 	let mut size = 0u64;
 	let mut fresh = 0u64; // every leaf ever pushed gets new content
 	let (mut rewinds, mut push_after_rewind) = (0u32, false);
+	let mut rewinds_to_parent = 0u32;
 	let mut just_rewound = false;
 	for (step, (kind, arg)) in ops.iter().enumerate() {
 		if *kind <= 5 {
@@ -529,7 +537,16 @@ fn history_case(ctx: &Ctx, hash_only: bool, seed: u64, ops: &[(u8, u16)], counti
 				continue;
 			}
 			let keep = (*arg as usize * (datas.len() + 1)) >> 16;
-			let to = RefMmr::build(&datas[..keep]).size();
+			let rk = RefMmr::build(&datas[..keep]);
+			let mut to = rk.size();
+			if *kind >= 7 && keep > 0 {
+				// a position between the last kept leaf (exclusive) and the boundary (inclusive) names the same MMR
+				let last_leaf = *rk.leaf_positions().last().unwrap();
+				to -= (*arg as u64 ^ *kind as u64) % (to - last_leaf);
+				if to != rk.size() {
+					rewinds_to_parent += 1;
+				}
+			}
 			let mut p = PMMR::<FixElem, _>::at(&mut backend, size);
 			p.rewind(to, &croaring::Bitmap::new()).map_err(|e| Fail::new("rewind-err", e))?;
 			size = p.unpruned_size();
@@ -558,6 +575,9 @@ fn history_case(ctx: &Ctx, hash_only: bool, seed: u64, ops: &[(u8, u16)], counti
 	if counting {
 		ctx.ev.eval();
 		ctx.ev.class(if hash_only { "history:hash-only-backend" } else { "history:data-backend" });
+		if rewinds_to_parent > 0 {
+			ctx.ev.class("history:rewind-to-a-parent-position");
+		}
 		if push_after_rewind {
 			ctx.ev.class("history:push-after-rewind");
 			ctx.ev.nontrivial(&("history", hash_only, rewinds.min(6), datas.len().min(64)));
